@@ -10,6 +10,7 @@ import (
 	"runtime"
 	"sort"
 	"strings"
+	"sync/atomic"
 	"syscall"
 	"testing"
 	"time"
@@ -279,7 +280,15 @@ func vfC05Check(c vfC05Case) error {
 	}
 	ssData, _ := json.Marshal(ss)
 	_ = os.WriteFile(serverScript, ssData, 0o644)
-	flags := &Flags{ConfigFile: cfgFile, TestFiles: files, RunPatterns: runPats, SkipPatterns: skipPats, MaxServers: c.MaxServers, Parallelism: 4, ServerBind: "127.0.0.1"}
+	// every run binds its in-process servers to a loopback address of its own: a port freed by this run's server and
+	// re-used by another process on the machine (other shards run in parallel) is then never mistaken for a live server
+	// of this run by the client's "which addresses accept connections" probe
+	bind := "127.0.0.1"
+	if c.Mode == "client" {
+		n := vfBindSeq.Add(1)
+		bind = fmt.Sprintf("127.%d.%d.%d", 1+os.Getpid()%200, 1+(os.Getpid()/200)%250, 1+n%250)
+	}
+	flags := &Flags{ConfigFile: cfgFile, TestFiles: files, RunPatterns: runPats, SkipPatterns: skipPats, MaxServers: c.MaxServers, Parallelism: 4, ServerBind: bind}
 	if c.Mode != "server" {
 		flags.ClientCommand = vfPeerCommand("script-client", clientScript, logFile)
 	}
@@ -654,3 +663,5 @@ func TestVerifC05ClientKinds(t *testing.T) {
 	}
 	en.Done(true)
 }
+
+var vfBindSeq atomic.Int64
